@@ -6,6 +6,7 @@ CONSTANTS
   Cols <- ColsLate
   ClassKinds <- KindsTabLate
   ClassX <- XTabLate
+  ClassXS <- XSNone
   ClassT <- TTabLate
   ClassM <- MTabLate
   LowerOf <- LowerTab
